@@ -5,8 +5,10 @@ import common
 
 COQ_MODULE = "Prop_C16"
 THEOREMS = ["C16_boxed_drop_exactly_once", "C16_boxed_into_child_roundtrip", "C16_into_child_without_forget_is_wrong",
-            "C16_monitor"]
-CASE_MODULES = ["Values"]
+            "C16_monitor", "C16_array_loop_is_identity", "C16_into_inner_every_structure", "C16_get_mut_every_structure",
+            "C16_drop_every_structure", "C16_write_position", "C16_every_structure", "C16_model_defined",
+            "C16_into_child_needs_forget"]
+CASE_MODULES = ["Values", "VTree"]
 CHECK_WITHOUT_PROOF = True
 TRUSTED = common.TRUSTED_COMMON
 ASSUMPTIONS = ["the model is an ownership ledger, not a memory model: a double free or use-after-free shows only as a wrong "
@@ -16,7 +18,12 @@ RULE = ("collection kinds boxed / owned / retrying (+ ref) x containers Vec / Bo
         "into_iter, into_iter dropped half-way, from_iter, extend, try_new rejecting an input that owns values, try_new accepting, "
         "ref collection over owned data, Default, nested owned-in-boxed, Poisonable::into_child} x a write under the lock at each "
         "position, with drop-counting payloads; exhaustive over that space in both tiers; non-trivial = at least one value; "
-        "distinct = distinct case line")
+        "distinct = distinct case line; plus 32 nested structures (harness/src/vtree.rs: locks, Poisonable wrappers clean and "
+        "poisoned, Vec / Box<[T]> of length 0..3, arrays to 7, tuples to 7, boxed / owned / retrying collections nested in "
+        "each other to depth 4) x paths {drop, drop by unwinding, into_inner, into_child, get_mut (where implemented), "
+        "lock-then-into_inner, checked constructor rejecting / accepting an input that owns the structure} x a write at "
+        "every payload position (through the exclusive scoped call of the root, or through get_mut): the harness prints "
+        "the structure as a term of coq/VTree.v, the model is evaluated on that term")
 EXHAUSTIVE = {"quick": True, "thorough": True}
 
 PATHS = {"drop": "PDrop", "drop_unwinding": "PDropUnw", "into_inner": "PIntoInner", "into_child": "PIntoChild", "lock_then_into_inner": "PLockThenIntoInner",
@@ -35,9 +42,53 @@ class VCase:
         return f"v {self.sid} {self.kind} {self.cont} {self.lock} {self.n} {self.path} {'-' if self.wpos is None else self.wpos}"
 
 
+TPATHS = {"drop": "QDrop", "drop_unwinding": "QDropUnw", "into_inner": "QIntoInner", "into_child": "QIntoChild",
+          "get_mut": "QGetMut", "lock_into_inner": "QLockIntoInner", "try_new_reject": "QTryNewReject",
+          "try_new_reject_retry": "QTryNewReject", "try_new_accept": "QTryNewAccept"}
+# harness/src/vtree.rs `table!`: (implements LockableGetMut, number of payloads as a function of the Vec length)
+TTYPES = {0: (1, lambda n: 1), 1: (1, lambda n: 1), 2: (1, lambda n: 1), 3: (1, lambda n: 1), 4: (1, lambda n: n),
+          5: (1, lambda n: n), 6: (0, lambda n: n), 7: (0, lambda n: 5), 8: (1, lambda n: 3), 9: (1, lambda n: 7),
+          10: (0, lambda n: 5), 11: (1, lambda n: 6), 12: (0, lambda n: 2 * n), 13: (1, lambda n: 2 * n),
+          14: (1, lambda n: n + 3), 15: (0, lambda n: 6), 16: (1, lambda n: n), 17: (0, lambda n: 2), 18: (1, lambda n: 2),
+          19: (0, lambda n: n + 1), 20: (0, lambda n: 2 * n), 21: (1, lambda n: 2 * n), 22: (1, lambda n: 3 * n),
+          23: (0, lambda n: n + 4), 24: (1, lambda n: n + 2), 25: (0, lambda n: n * n), 26: (1, lambda n: 4),
+          27: (1, lambda n: 2 * n * n), 28: (1, lambda n: 0), 29: (0, lambda n: 1), 30: (1, lambda n: 7), 31: (1, lambda n: 1)}
+
+
+class TCase:
+    """a structure of the table of harness/src/vtree.rs"""
+
+    def __init__(self, sid, ty, vlen, poison, path, wpos):
+        self.sid, self.ty, self.vlen, self.poison, self.path, self.wpos = sid, ty, vlen, poison, path, wpos
+        self.hist, self.meta = [], {}
+        self.kind, self.cont, self.lock, self.n = f"type{ty}", "tree", "-", TTYPES[ty][1](vlen)
+
+    def text(self):
+        return f"t {self.sid} {self.ty} {self.vlen} {1 if self.poison else 0} {self.path} {'-' if self.wpos is None else self.wpos}"
+
+
 def gen(tier, rng):
     cases = []
     k = 0
+    for ty, (gm, npay) in sorted(TTYPES.items()):
+        for vlen in (0, 1, 2, 3):
+            uses_vlen = npay(0) != npay(1)
+            if not uses_vlen and vlen != 2:
+                continue
+            n = npay(vlen)
+            for poison in (False, True):
+                for path in ("drop", "drop_unwinding", "into_inner", "into_child", "get_mut", "lock_into_inner",
+                             "try_new_reject", "try_new_reject_retry", "try_new_accept"):
+                    if path == "get_mut" and not gm:
+                        continue
+                    wl = [None]
+                    if path in ("into_inner", "into_child", "get_mut"):
+                        wl += list(range(n))
+                    elif poison and path not in ("drop", "lock_into_inner"):
+                        continue                      # the flag matters only where results are produced
+                    for w in wl:
+                        cases.append(TCase(f"t16_{k}", ty, vlen, poison, path, w))
+                        k += 1
 
     def add(*a):
         nonlocal k
@@ -72,7 +123,22 @@ def parse_vobs(v):
     return m.group(1), m.group(2)
 
 
+def coq_expr_t(s, r):
+    m = re.match(r"ok (.*) \| (\[.*?\]) \| (\[.*\])$", r.get("tobs", ""))
+    w = "None" if s.wpos is None else f"(Some {s.wpos})"
+    if not m:
+        return "mkv false false false false"
+    desc, toks, drops = m.groups()
+    p = TPATHS[s.path]
+    return (f"let t := {desc} in let r := tmodel {p} t {w} in "
+            f"let eqv := match fst r with Some k => toks_eqb k {toks} | None => false end && "
+            f"list_eqb Nat.eqb (drops_of (snd r) 32) {drops} in "
+            f"let mon := wf_vt 32 t && mon_T16 {p} t {w} {toks} {drops} in mkv eqv eqv mon mon")
+
+
 def coq_expr(s, r):
+    if isinstance(s, TCase):
+        return coq_expr_t(s, r)
     pv = parse_vobs(r.get("vobs", ""))
     w = "None" if s.wpos is None else f"(Some {s.wpos})"
     k, p = KINDS[s.kind], PATHS[s.path]
@@ -87,6 +153,8 @@ def coq_expr(s, r):
 
 
 def classify(s, r):
+    if isinstance(s, TCase):
+        return [f"kind=tree", f"type={s.ty}", f"payloads={s.n}", f"path={s.path}", f"poisoned={s.poison}"]
     return [f"kind={s.kind}", f"cont={s.cont}", f"lock={s.lock}", f"n={s.n}", f"path={s.path}"]
 
 
@@ -104,4 +172,6 @@ def to_replay(s):
 
 def from_replay(j):
     t = (j.get("scenario") or j)["case"].split()
+    if t[0] == "t":
+        return [TCase(t[1], int(t[2]), int(t[3]), t[4] == "1", t[5], None if t[6] == "-" else int(t[6]))]
     return [VCase(t[1], t[2], t[3], t[4], int(t[5]), t[6], None if t[7] == "-" else int(t[7]))]
